@@ -265,6 +265,11 @@ class Builder:
         else:
             star = False
 
+        # call of a locally bound callable value (e.g. `transform = lambda x: x` under a guard)
+        if isinstance(f, ast.Name) and f.id in self.env and isinstance(self.env[f.id], Rat):
+            fv = self.env[f.id]
+            return self._apply_value(fv, args, kws)
+
         # -- repo callee inlining -------------------------------------------------
         if self.prog is not None and self.func is not None and self.inline_depth > 0 and not star:
             r = self.prog.resolve_call(self.func, e)
@@ -277,6 +282,24 @@ class Builder:
 
         allargs = ([recv] if recv is not None else []) + args
         return self._builtin(name, recv is not None, allargs, kws, e)
+
+    def _apply_value(self, fv: Rat, args, kws):
+        """Apply a callable *value*: identity lambdas beta-reduce, ite-valued callables distribute."""
+        at = fv.as_atom()
+        if at is not None and at.op == "lambda" and len(args) == 1 and not kws:
+            try:
+                lam = ast.parse(at.args[0], mode="eval").body
+                if isinstance(lam.body, ast.Name) and len(lam.args.args) == 1 and lam.body.id == lam.args.args[0].arg:
+                    return args[0]
+            except SyntaxError:
+                pass
+        if at is not None and at.op == "ite":
+            c, a, b = at.args
+            return mk_ite(c, self._apply_value(a, args, kws), self._apply_value(b, args, kws))
+        if at is not None and at.op == "sym":
+            return self._builtin(at.args[0], False, list(args), kws, None)
+        kwt = tuple((k, v) for k, v in sorted(kws.items()))
+        return app("call", fv, *args, ("kw",) + kwt) if kwt else app("call", fv, *args)
 
     def _inline(self, callee: Func, bound: bool, recv, args, kws):
         if not simple_function(callee.node) or callee.node.decorator_list:
